@@ -188,6 +188,7 @@ def check(case, mon, ctx):
             pass
     v = ctx.pp.PageParser.compute_line_confidence(line)
     mon.count('page_conf_checked')
+    mon.observe('confidences', [None if c is None else np.round(np.asarray(c, dtype=np.float64), 12).tolist(), round(float(v), 12)])
     if not in_unit(v):
         mon.violation('page-line-confidence-in-unit-interval', {'value': v})
     dense = line.get_dense_logits()
